@@ -3,6 +3,7 @@ package c13
 import (
 	"crypto/hmac"
 	"crypto/sha256"
+	"crypto/tls"
 	"encoding/hex"
 	"encoding/json"
 	"fmt"
@@ -45,7 +46,7 @@ type Stress struct {
 
 func genStress(t *rapid.T) Stress {
 	s := Stress{
-		Transport: rapid.SampledFrom([]string{"realUDP", "realTCP", "realTCP", "memTCP", "memTCP", "memPacket", "lnsUDP", "lnsTCP", "lnsUDP6", "lnsTCP6"}).Draw(t, "transport"),
+		Transport: rapid.SampledFrom([]string{"realUDP", "realTCP", "realTCP", "memTCP", "memTCP", "memPacket", "lnsUDP", "lnsTCP", "lnsUDP6", "lnsTCP6", "lnsTLS"}).Draw(t, "transport"),
 		Clients:   rapid.IntRange(0, 8).Draw(t, "clients"),
 		Reqs:      rapid.IntRange(1, 4).Draw(t, "reqs"),
 		Mode:      rapid.SampledFrom([]string{"blind", "timed", "timed", "timed"}).Draw(t, "mode"),
@@ -68,7 +69,7 @@ func genStress(t *rapid.T) Stress {
 			s.Transport = rapid.SampledFrom([]string{"lnsUDP", "lnsUDP", "lnsTCP"}).Draw(t, "transport0")
 		}
 		for i := 1; i < s.Restarts; i++ {
-			s.Seq = append(s.Seq, rapid.SampledFrom([]string{"lnsTCP", "lnsTCP", "lnsUDP", "lnsUDP", "lnsUDP6", "lnsTCP6", "realTCP", "realUDP", "memTCP", "memPacket"}).Draw(t, "transportN"))
+			s.Seq = append(s.Seq, rapid.SampledFrom([]string{"lnsTCP", "lnsTCP", "lnsUDP", "lnsUDP", "lnsUDP6", "lnsTCP6", "lnsTLS", "realTCP", "realUDP", "memTCP", "memPacket"}).Draw(t, "transportN"))
 		}
 		s.KeepFields = rapid.IntRange(0, 3).Draw(t, "keepFields") > 0
 	}
@@ -267,6 +268,9 @@ func (r *stressRun) cycle(srv *dns.Server, cycle int) (overlap bool, err error) 
 		srv.Net, srv.Addr = "tcp", "127.0.0.1:0"
 	case "lnsUDP6":
 		srv.Net, srv.Addr = "udp6", "[::1]:0"
+	case "lnsTLS": // ListenAndServe's third start path: DNS over TLS
+		srv.Net, srv.Addr = "tcp-tls", "127.0.0.1:0"
+		srv.TLSConfig, _ = tlsConfigs()
 	case "lnsTCP6":
 		srv.Net, srv.Addr = "tcp6", "[::1]:0"
 	default:
@@ -276,15 +280,19 @@ func (r *stressRun) cycle(srv *dns.Server, cycle int) (overlap bool, err error) 
 	started := make(chan struct{})
 	srv.NotifyStartedFunc = func() { close(started) }
 	serveDone := make(chan error, 1)
+	var serveRet atomic.Bool
 	go func() {
+		var e error
 		if lns {
-			serveDone <- srv.ListenAndServe()
+			e = srv.ListenAndServe()
 		} else {
-			serveDone <- srv.ActivateAndServe()
+			e = srv.ActivateAndServe()
 		}
+		serveRet.Store(true)
+		serveDone <- e
 	}()
 	lnsAddr := func() string { // only valid after the start notification
-		if strings.HasPrefix(s.Transport, "lnsTCP") {
+		if strings.HasPrefix(s.Transport, "lnsT") {
 			return srv.Listener.Addr().String()
 		}
 		return srv.PacketConn.LocalAddr().String()
@@ -308,6 +316,9 @@ func (r *stressRun) cycle(srv *dns.Server, cycle int) (overlap bool, err error) 
 			c, e = net.Dial("udp", udp.LocalAddr().String())
 		case "lnsTCP", "lnsTCP6":
 			c, e = net.DialTimeout("tcp", lnsAddr(), 2*time.Second)
+		case "lnsTLS":
+			_, cfg := tlsConfigs()
+			c, e = tls.DialWithDialer(&net.Dialer{Timeout: 2 * time.Second}, "tcp", lnsAddr(), cfg)
 		case "lnsUDP", "lnsUDP6":
 			c, e = net.Dial("udp", lnsAddr())
 		}
@@ -415,8 +426,11 @@ func (r *stressRun) cycle(srv *dns.Server, cycle int) (overlap bool, err error) 
 		}
 		// blind: until it stops saying "not started"
 		for {
+			gone := serveRet.Load()
 			sdErr = srv.Shutdown()
-			if !isNotStarted(sdErr) {
+			if !isNotStarted(sdErr) || gone {
+				// gone: the serve call had returned before this attempt although no Shutdown ever
+				// succeeded - the server stopped (or never began) serving on its own
 				r.returned.Store(true)
 				return
 			}
@@ -489,6 +503,13 @@ func (r *stressRun) cycle(srv *dns.Server, cycle int) (overlap bool, err error) 
 		return false, secondErr
 	}
 	if sdErr != nil {
+		if isNotStarted(sdErr) {
+			select {
+			case e := <-serveDone:
+				return false, fmt.Errorf("I4: the serve call (%s) returned %v on its own, without a successful Shutdown; Shutdown says %v", s.Transport, e, sdErr)
+			default:
+			}
+		}
 		return false, fmt.Errorf("I4: Shutdown returned %v", sdErr)
 	}
 	if n := r.active.Load(); n != 0 {
@@ -549,7 +570,7 @@ func (r *stressRun) cycle(srv *dns.Server, cycle int) (overlap bool, err error) 
 			udp.Close()
 			return false, fmt.Errorf("I6: UDP socket was still open after shutdown")
 		}
-	case strings.HasPrefix(s.Transport, "lnsTCP"):
+	case strings.HasPrefix(s.Transport, "lnsT"):
 		if e := srv.Listener.Close(); e == nil {
 			return false, fmt.Errorf("I6: the TCP listener opened by ListenAndServe was still open after shutdown")
 		}
